@@ -176,7 +176,11 @@ pub fn build(ctl: &'static Ctrl, params: &Value) -> Instance {
         }));
     }
     let custom_env = if end == "cancel" { vec![("cancelx".to_string(), String::new())] } else { vec![] };
-    let opts = ExecOpts { cats: vec!["sp", "join", "yield"], custom_env, ..Default::default() };
+    // the joiner itself may be cancelled (a coroutine joiner only): join() / wait() must still not report
+    // completion early - they end by the Cancel panic instead
+    let victims: Vec<String> = params["victims"].as_array().map(|a| a.iter().map(|v| v.as_str().unwrap().to_string()).collect()).unwrap_or_default();
+    let joiner_cancelled = !victims.is_empty();
+    let opts = ExecOpts { cats: vec!["sp", "join", "yield"], custom_env, victims, ..Default::default() };
     let sh4 = sh.clone();
     let sh5 = sh.clone();
     let end2 = end.clone();
@@ -217,7 +221,7 @@ pub fn build(ctl: &'static Ctrl, params: &Value) -> Instance {
                         "cancel" => "cancel",
                         _ => "ok:42",
                     };
-                    if r != want {
+                    if r != want && !(joiner_cancelled && r.is_empty()) {
                         v.push(Violation { kind: "join_result".into(), detail: format!("join() returned {r:?}, the closure ended with {want:?}") });
                     }
                     let t0 = std::time::Instant::now();
@@ -228,7 +232,7 @@ pub fn build(ctl: &'static Ctrl, params: &Value) -> Instance {
                         v.push(Violation { kind: "captured_drop".into(), detail: format!("the value captured by the closure was dropped {} times", sh4.drops.load(SeqCst)) });
                     }
                     for (i, p) in out.panicked.iter().enumerate() {
-                        if *p && out.names[i] != "x" {
+                        if *p && out.names[i] != "x" && !(joiner_cancelled && out.names[i] == "s") {
                             v.push(Violation { kind: "panic".into(), detail: format!("{} panicked", out.names[i]) });
                         }
                     }
